@@ -7,7 +7,7 @@
 (* in linearization order. A frame call "delivers data" iff it returns Ok   *)
 (* with nbytes > 0: a return that carries no data must say so (nbytes = 0). *)
 (***************************************************************************)
-EXTENDS Naturals, Integers, Sequences, TLC, Json, IOUtils
+EXTENDS Naturals, Integers, Sequences, FiniteSets, TLC, Json, IOUtils
 Tr == ndJsonDeserialize(IOEnv.TRACE)
 VARIABLES l, c, bad, nbad, done
 vars == <<l, c, bad, nbad, done>>
@@ -20,7 +20,12 @@ CInit(trig) == [ running |-> FALSE,    \* between StartCall and StopCall
 Init == l = 1 /\ c = CInit(FALSE) /\ bad = <<>> /\ nbad = 0 /\ done = FALSE
 Ev == Tr[l]
 If(x, name) == IF x THEN <<name>> ELSE <<>>
-Flag(rules) == /\ bad' = (IF Len(bad) < 100 THEN bad \o [i \in 1..Len(rules) |-> <<rules[i], l>>] ELSE bad)
+\* at most 20 entries per rule are kept (so that frequent refusals of one rule never hide another rule's)
+Count(b, name) == Cardinality({j \in 1..Len(b) : b[j][1] = name})
+RECURSIVE AddAll(_, _, _)
+AddAll(b, rules, i) == IF i > Len(rules) THEN b
+                       ELSE AddAll(IF Count(b, rules[i]) < 20 THEN Append(b, <<rules[i], l>>) ELSE b, rules, i + 1)
+Flag(rules) == /\ bad' = AddAll(bad, rules, 1)
                /\ nbad' = nbad + Len(rules)
 NoFlag == bad' = bad /\ nbad' = nbad
 
